@@ -191,9 +191,9 @@ def run(ctx, known, built):
                 "sequences by construction, plus the random histories); every history is non-trivial (it exercises the "
                 "operation's branches; the outcome histogram is in input_distribution)",
         "exhaustive": True,
-        "exhaustive_scope": "all operation sequences of length <= 4 over two 11-operation alphabets (glyph level, layer level), "
-                            "of length <= 3 over two 26/28-operation alphabets, of length <= 2 over a 61-operation alphabet "
-                            "from Font::new() and three loaded fonts; length 1 from six malformed trees",
+        "exhaustive_scope": "; ".join("all sequences of length <= %d over %d operations from start %s" % (
+            t["max_length"], t["operations_in_alphabet"], "Font::new()" if t["start"] == "N" else repr(t["start"]))
+            for t in summ.get("tries", [])),
         "input_distribution": summ,
         "model_shards": len(shards),
         "traces_validated_against_impl": summ["trie_nodes"] + summ["random_histories"],
